@@ -43,7 +43,7 @@ func init() {
 		MinEvals:        floor(4000, 150000),
 		MinDistinct:     floor(500, 15000),
 		RequiredCells: func(string) []string {
-			cells := []string{"purity/seal-unseal/history", "purity/seal-unseal/concurrent", "dlg", "inv", "minimal", "full", "time/beyond-2^53", "time/2^53-1", "null/top-level-meta", "null/top-level-arg", "float/integral", "float/integral-policy-bounds", "dec/generic", "dec/typed", "dec/reader", "codec/dagcbor", "codec/dagjson", "stream-of-tokens/dagcbor", "stream-of-tokens/dagjson"}
+			cells := []string{"purity/seal-unseal/history", "purity/seal-unseal/concurrent", "dlg", "inv", "minimal", "full", "time/beyond-2^53", "time/2^53-1", "null/top-level-meta", "null/top-level-arg", "float/integral", "float/integral-policy-bounds", "time/window-inside-one-second", "dec/generic", "dec/typed", "dec/reader", "codec/dagcbor", "codec/dagjson", "stream-of-tokens/dagcbor", "stream-of-tokens/dagjson"}
 			for _, a := range gen.Algs {
 				cells = append(cells, "alg/"+a)
 			}
@@ -474,6 +474,15 @@ func runC07(w *mon.W) {
 			w.Cover("float/integral-policy-bounds")
 		}
 		c07One(w, s, "random")
+		// a window that opens and closes inside one whole second (a few seconds ahead)
+		if typ == "dlg" {
+			s = gen.RandomSpec(r, typ, gen.SpecOpts{Minimal: true})
+			base := time.Now().Truncate(time.Second).Add(time.Duration(5+i) * time.Second)
+			nb, ex := base.Add(100*time.Millisecond), base.Add(600*time.Millisecond)
+			s.Nbf, s.Exp = &nb, &ex
+			w.Cover("time/window-inside-one-second")
+			c07One(w, s, "random")
+		}
 		// top-level null
 		s = gen.RandomSpec(r, typ, gen.SpecOpts{})
 		s.Meta = ref.Map(ref.E("n", ref.Null()))
